@@ -150,6 +150,21 @@ def programs():
                                          ("assign", V("z"), "=", B("+", V("y"), I(2))), ("return", B("+", B("/", V("x"), V("z")), B("/", V("y"), I(2))))])], inputs={"n": "0..3"})
     out["float.literal-div"] = P([fn("f", "float", [("int", "a")], [("decl", "float", "x", I(7)), ("decl", "float", "y", I(2)), ("assign", V("g"), "=", B("/", V("x"), V("y"))), ("return", B("+", V("g"), V("a")))])],
                                  globals_=[("float", "g")], inputs={"a": "int", "@g": "float"})
+    # --- names reused in disjoint sibling scopes (C12): each declaration is its own zero-initialised variable
+    A2 = ("arr", "int", (2,))
+    out["scope.sibling-blocks"] = P([fn("f", "int", [("int", "a")], [("decl", "int", "r", I(0)),
+                                     ("block", [("decl", A2, "x", None), ("assign", ("idx", "x", [I(0)]), "=", V("a")), ("assign", ("idx", "x", [I(1)]), "=", I(6)), ("assign", V("r"), "=", ("idx", "x", [I(1)]))]),
+                                     ("block", [("decl", A2, "x", None), ("assign", ("idx", "x", [I(0)]), "=", I(1)), ("assign", V("r"), "=", B("+", B("*", V("r"), I(10)), B("+", ("idx", "x", [I(0)]), ("idx", "x", [I(1)]))))]),
+                                     ("return", V("r"))])], inputs={"a": "int"})
+    out["scope.if-else-same-name"] = P([fn("f", "int", ii, [("decl", "int", "r", I(0)), ("if", B(">", V("a"), I(0)), [("decl", A2, "t", None), ("assign", ("idx", "t", [I(1)]), "=", V("b")), ("assign", V("r"), "=", ("idx", "t", [I(1)]))],
+                                                             [("decl", A2, "t", None), ("assign", ("idx", "t", [I(0)]), "=", I(7)), ("assign", V("r"), "=", B("+", ("idx", "t", [I(0)]), ("idx", "t", [I(1)])))]), ("return", V("r"))])],
+                                       inputs={"a": "int", "b": "int"})
+    out["scope.loop-then-block"] = P([fn("f", "int", [("int", "n")], [("decl", "int", "r", I(0)), ("decl", "int", "k", I(0)),
+                                      ("while", B("<", V("k"), V("n")), [("decl", "int", "v", None), ("assign", V("v"), "+=", B("+", V("k"), I(7))), ("assign", V("r"), "+=", V("v")), ("expr", ("pre", "++", "k"))]),
+                                      ("block", [("decl", "int", "v", None), ("assign", V("v"), "+=", I(5)), ("assign", V("r"), "=", B("+", B("*", V("r"), I(100)), V("v")))]), ("return", V("r"))])], inputs={"n": "0..3"})
+    out["scope.kinds-differ"] = P([fn("f", "int", [("int", "a")], [("decl", "int", "r", I(0)), ("block", [("decl", "int", "x", V("a")), ("assign", V("r"), "=", V("x"))]),
+                                   ("block", [("decl", ("arr", "int", (3,)), "x", None), ("assign", ("idx", "x", [I(1)]), "=", I(4)), ("assign", V("r"), "+=", B("+", ("idx", "x", [I(1)]), ("idx", "x", [I(2)])))]), ("return", V("r"))])],
+                                  inputs={"a": "int"})
     return out
 
 
@@ -284,7 +299,7 @@ def _run_program(R, oid, name, prog, options, minimal, fn):
 def _mk(kind, part, parts):
     options = {"optimize": True} if kind == "optimize" else {}
     minimal = kind == "grouping"
-    props = {"scalar": ["C01", "C03", "C05"], "optimize": ["C02", "C14", "C05"], "grouping": ["C08", "C01"]}[kind]
+    props = {"scalar": ["C01", "C03", "C05", "C12"], "optimize": ["C02", "C14", "C05"], "grouping": ["C08", "C01"]}[kind]
 
     @family(f"E2E.{kind}.{part}", props=props,
             functions=["nsl.Compiler::Compiler.Compile", "nsl.parser::NslParser.Parse", "nsl.passes.ComputeTypes::ComputeTypeVisitor", "nsl.passes.AddImplicitCasts::AddImplicitCastVisitor",
@@ -482,3 +497,104 @@ def e2e_opt_vs_plain(R):
                 """, src=src, kw=kw, gl=gl)
 
         verify(R, "E2E.opt-vs-plain", fn, run, replay, label=name, max_paths=600)
+
+
+# ---------------------------------------------------------------------------
+# Compile is a function of (source, options): a Compiler object that compiled other programs before produces the same IR and the same
+# WebAssembly bytes as a fresh one (the wasm pass owns the module under construction; the parser owns a line table; passes own flags).
+
+def _ir_text(result):
+    import nsl.LinearIR as IR
+    out = []
+    try:
+        pr = IR.InstructionPrinter(lambda *a, end="\n": out.append(" ".join(str(x) for x in a) + end))
+        pr.Print(result.IRModule)
+    except Exception as e:
+        out.append(f"<printer failed {type(e).__name__}>")
+    return "".join(out)
+
+
+def _wasm_bytes(result):
+    import io
+    if result.WasmModule is None:
+        return None
+    b = io.BytesIO()
+    result.WasmModule.WriteTo(b)
+    return b.getvalue()
+
+
+@family("P.compile-history", props=["C07", "C06", "C02", "C14", "C20", "C10", "C05", "C11"],
+        functions=["nsl.Compiler::Compiler.Compile", "nsl.Compiler::Compiler.__init__", "nsl.passes.GenerateWasm::GetPass", "nsl.passes.GenerateWasm::GenerateWasmVisitor.Finalize", "nsl.passes.LowerToIR::GetPass"],
+        assumptions=["BOUNDED in histories (never counted as a proof over all histories): every ordered pair and triple drawn from 7 programs (5 accepted, 2 rejected), compiled one after the other by ONE Compiler object under each of the option sets {}, optimize, wasm, optimize+wasm, compared with a fresh Compiler"])
+def compile_history(R):
+    """The IR text and the WebAssembly bytes produced for a program do not depend on what the same Compiler object compiled before."""
+    import io, contextlib
+    from nsl import Compiler
+    progs = [
+        "export function f(int a, int b) -> int { return (a + b); }",
+        "function helper(int a) -> int { return (a * 2); }\nexport function g(int a) -> int { return helper(a); }",
+        "export function h(float x,\n float y) -> float {\n return (x * y); }",
+        "function helper(int a) -> int { return (a * 2); }\nexport function k(int a, float z) -> int { return (a - 1); }",
+        "int counter;\nexport function m(int a) -> int { return (a * a); }",
+        # rejected on their own -- and so they must be after any other program: the names `helper` / `counter` of EARLIER programs are not
+        # visible, and an earlier rejection does not stick
+        "export function n(int a) -> int { return helper(a); }",
+        "export function o(int a) -> int { break; return a; }",
+    ]
+
+    def comp(c, src, opts):
+        try:
+            with contextlib.redirect_stdout(io.StringIO()):
+                r = c.Compile(src, dict(opts))
+        except BaseException as e:
+            if isinstance(e, KeyboardInterrupt):
+                raise
+            return "rejected"          # a failing pass surfaces as an exception (CompileException, or AttributeError from __RunPass)
+        return (_ir_text(r), _wasm_bytes(r)) if r is not None else "rejected"
+
+    for opts in ({}, {"optimize": True}, {"wasm": True}, {"optimize": True, "wasm": True}):
+        fresh = {s: comp(Compiler.Compiler(), s, opts) for s in progs}
+        usable = list(progs)
+        bad = None
+        n = 0
+        for k in (2, 3):
+            for seq in itertools.permutations(usable, k):
+                c = Compiler.Compiler()
+                for j, s in enumerate(seq):
+                    n += 1
+                    got = comp(c, s, opts)
+                    if got != fresh[s] and bad is None:
+                        if isinstance(got, tuple) and isinstance(fresh[s], tuple):
+                            what = "different IR text" if got[0] != fresh[s][0] else "different wasm bytes"
+                        else:
+                            what = f"`{got if isinstance(got, str) else 'accepted'}` where a fresh Compiler says `{fresh[s] if isinstance(fresh[s], str) else 'accepted'}`"
+                        bad = (seq[:j + 1], what)
+                if bad:
+                    break
+            if bad:
+                break
+        lab = ",".join(sorted(opts)) or "plain"
+        rp = None
+        if bad:
+            rp = script("""
+                import io, contextlib
+                from nsl import Compiler
+                seq, opts = {{seq}}, {{opts}}
+                def comp(c, s):
+                    try:
+                        with contextlib.redirect_stdout(io.StringIO()):
+                            r = c.Compile(s, dict(opts))
+                    except BaseException as e:
+                        return 'rejected'
+                    if r is None: return 'rejected'
+                    b = io.BytesIO()
+                    if r.WasmModule is not None: r.WasmModule.WriteTo(b)
+                    return (sorted(r.IRModule.Functions), b.getvalue().hex())
+                c = Compiler.Compiler()
+                shared = [comp(c, s) for s in seq]
+                fresh = [comp(Compiler.Compiler(), s) for s in seq]
+                print('same Compiler  :', shared); print('fresh Compilers:', fresh)
+                if shared != fresh: print('REPLAY-CONFIRMED')
+                """, seq=list(bad[0]), opts=dict(opts))
+        R.bounded(f"P.compile-history[{lab}]", "nsl.Compiler::Compiler.Compile", bad is None, n,
+                  detail=f"{n} compilations in sequences of 2-3 programs on one Compiler" if bad is None else f"after compiling {len(bad[0]) - 1} other program(s) the same Compiler produces {bad[1]} for:\n{bad[0][-1]}", replay=rp)
